@@ -372,6 +372,7 @@ class World(object):
         cid = frames[0] if frames else None
         req = Request(self, cid, mid, command, props, cast, frames, CLOCK.now)
         self.requests.append(req)
+        self.loop.asleep = False       # a readable control socket ends the selector's wait
         CLOCK.begin_callback()
         try:
             self.ctrl.handle_message(frames)
@@ -403,7 +404,13 @@ class World(object):
             return
         if h is _signal.SIG_DFL:
             raise DaemonKilled(int(signum))
+        loop = self.loop
+        blocked = not loop._ready and not loop.vsel.peek() and not loop.asleep     # the loop sits in its selector
+        deadline = loop.next_timer()
         h(int(signum), None)        # the handler circus registered - or Python's own for SIGINT (KeyboardInterrupt)
+        if blocked and not loop.vsel.peek():
+            # nothing the handler did wakes the selector up (no byte in the wake-up pipe)
+            loop.asleep, loop.asleep_deadline = True, deadline
 
     # --- external events ---------------------------------------------------
     def die(self, pid, wstatus):
